@@ -563,6 +563,9 @@ func runC19(c *Ctx) {
 		n := len(c.callSitesOf(idIs("nativeconverter/estargz/externaltoc.getTOCReference"), c.pkgFuncs("nativeconverter/estargz/externaltoc")))
 		c.verdict("nativeconverter/estargz/externaltoc:toc-reference", token.NoPos, n >= 2, "finalize and fetchTOCBlob both use getTOCReference", "TOC image reference derived differently on the write and read side")
 	}
+	clauseReuseOnlyVerifiedLayer(c, "C19.f")
+	clauseHelperFailureSurfaces(c, "C19.g")
+	clauseMediaTypeBySharedPredicate(c, "C19.h")
 	c.assume("containerd's converter invokes one ConvertFunc value for all layers of a manifest concurrently (core/images/converter convertManifest uses an errgroup)")
 	c.assume("content.Writer.Digest() is the digest of the bytes written; estargz.Blob.TOCDigest/DiffID are final after Close")
 }
